@@ -178,6 +178,14 @@ func (s *VirtualSession) CloseWithFeedback(session Session, message *ClientMessa
 	room := s.GetRoom()
 	s.session.RemoveVirtualSession(s)
 	removed := s.session.hub.removeSession(s)
+	s.hub.mu.Lock()
+	virtualSessionId := GetVirtualSessionId(s.session, s.sessionId)
+	if sid, found := s.hub.virtualSessions[virtualSessionId]; found && sid == s.data.Sid {
+		// Make sure the mapping is also removed if the session was not closed
+		// through a "removesession" request (e.g. the internal client ended).
+		delete(s.hub.virtualSessions, virtualSessionId)
+	}
+	s.hub.mu.Unlock()
 	if removed && room != nil {
 		go s.notifyBackendRemoved(room, session, message)
 	}
